@@ -59,13 +59,11 @@ impl Default for Options {
 
 pub trait Parse: Sized {
 	fn parse_slice(content: &[u8]) -> Result<(Self, CodeMap), Error> {
-		Self::parse_utf8(utf8_decode::Decoder::new(content.iter().copied()))
-			.map_err(Error::io_into_utf8)
+		Self::parse_slice_with(content, Options::default())
 	}
 
 	fn parse_slice_with(content: &[u8], options: Options) -> Result<(Self, CodeMap), Error> {
-		Self::parse_utf8_with(utf8_decode::Decoder::new(content.iter().copied()), options)
-			.map_err(Error::io_into_utf8)
+		Self::parse_utf8_with(strict_utf8_chars(content), options).map_err(Error::io_into_utf8)
 	}
 
 	fn parse_str(content: &str) -> Result<(Self, CodeMap), Error> {
@@ -146,6 +144,20 @@ pub trait Parse: Sized {
 	) -> Result<Meta<Self, usize>, Error<E>>
 	where
 		C: Iterator<Item = Result<DecodedChar, E>>;
+}
+
+/// Decodes `content` as strict UTF-8 (no overlong forms, no surrogates),
+/// ending with an error at the first ill-formed sequence.
+fn strict_utf8_chars(content: &[u8]) -> impl '_ + Iterator<Item = io::Result<char>> {
+	let (valid, error) = match std::str::from_utf8(content) {
+		Ok(valid) => (valid, None),
+		Err(e) => (
+			std::str::from_utf8(&content[..e.valid_up_to()]).unwrap(),
+			Some(io::Error::new(io::ErrorKind::InvalidData, e)),
+		),
+	};
+
+	valid.chars().map(Ok).chain(error.map(Err))
 }
 
 /// JSON parser.
